@@ -2111,3 +2111,117 @@ pub fn discover(own: u8, f: Sink) {
         }
     }
 }
+
+// ---------------------------------------------------------------------------------------------
+// EP2: an en-passant capture next to a second own pawn with an enemy man behind it
+
+/// For both colours: capturer pawn on the fifth rank (own view) on file cf, enemy pawn beside it
+/// on file cf +- 1 with the en-passant mark; a second own pawn on the SIXTH rank on every other
+/// file with an enemy man {P, N, R} directly behind it (on the fifth rank), or an own pawn on the
+/// fifth rank with the enemy man on the fourth; own king on the 8 spread squares, enemy king on
+/// two squares. Six men around one en-passant capture.
+pub fn ep2(own: u8, f: Sink) {
+    let opp = 1 - own;
+    let (r4, r5, r6) = if own == 0 { (3, 4, 5) } else { (4, 3, 2) };
+    let far = if own == 0 { 7 } else { 0 };
+    for cf in 0..8 {
+        for dv in [-1, 1] {
+            let vf = cf + dv;
+            if !(0..8).contains(&vf) {
+                continue;
+            }
+            for sf in 0..8 {
+                if sf == cf || sf == vf {
+                    continue;
+                }
+                for (pr, mr) in [(r6, r5), (r5, r4)] {
+                    for &mk_kind in &[P, N, R] {
+                        let mut p = Pos::empty();
+                        p.stm = own;
+                        p.b[sq(cf, r5)] = mk(own, P);
+                        p.b[sq(vf, r5)] = mk(opp, P);
+                        p.ep = Some(sq(vf, r6) as u8);
+                        p.b[sq(sf, pr)] = mk(own, P);
+                        p.b[sq(sf, mr)] = mk(opp, mk_kind);
+                        for &ok in &SPREAD8 {
+                            if p.b[ok] != EMPTY {
+                                continue;
+                            }
+                            for &ek in &[sq(1, far), sq(6, far)] {
+                                if p.b[ek] != EMPTY || ek == ok {
+                                    continue;
+                                }
+                                let mut q = p;
+                                q.b[ok] = mk(own, K);
+                                q.b[ek] = mk(opp, K);
+                                emit_if_valid(&q, f);
+                            }
+                        }
+                    }
+                }
+            }
+        }
+    }
+}
+
+// ---------------------------------------------------------------------------------------------
+// STUCK: a side whose only mobile man is one chosen man
+
+/// shard = corner (0..4) * 2 + side to move
+pub const STUCK_SHARDS: usize = 8;
+
+/// The king of the side to move in a corner, stalemated by an enemy queen a knight's jump away
+/// (not in check, no king move); every subset of six files carrying a pair of mutually blocked
+/// pawns (own pawn on its fourth rank, enemy pawn in front of it); and ONE further own man of any
+/// kind {P, N, B, R, Q} on every free square: positions with up to sixteen men in which every
+/// legal move belongs to that one man (promotion pushes only, double steps only, a single
+/// capture, nothing at all ...).
+pub fn stuck(shard: usize, f: Sink) {
+    let corner = [0usize, 7, 56, 63][shard / 2];
+    let own = (shard % 2) as u8;
+    let opp = 1 - own;
+    let (cf, cr) = (file_of(corner), rank_of(corner));
+    let sf = if cf == 0 { 1 } else { -1 };
+    let sr = if cr == 0 { 1 } else { -1 };
+    let qsq = sq(cf + 2 * sf, cr + sr);
+    // blocked pawn pairs on the files furthest from the corner
+    let files: Vec<i32> = (0..8).filter(|fl| (fl - cf).abs() >= 2).collect();
+    let (r_own, r_opp) = if own == 0 { (3, 4) } else { (4, 3) };
+    let ek = sq(if cf == 0 { 6 } else { 1 }, if cr == 0 { 7 } else { 0 });
+    for mask in 0..(1usize << files.len()) {
+        let mut base = Pos::empty();
+        base.stm = own;
+        base.b[corner] = mk(own, K);
+        base.b[qsq] = mk(opp, Q);
+        base.b[ek] = mk(opp, K);
+        let mut ok = true;
+        for (i, &fl) in files.iter().enumerate() {
+            if mask >> i & 1 != 0 {
+                let (a, b) = (sq(fl, r_own), sq(fl, r_opp));
+                if base.b[a] != EMPTY || base.b[b] != EMPTY {
+                    ok = false;
+                    break;
+                }
+                base.b[a] = mk(own, P);
+                base.b[b] = mk(opp, P);
+            }
+        }
+        if !ok || !is_valid_normal(&base) {
+            continue;
+        }
+        f(&base);
+        for x in 0..64 {
+            if base.b[x] != EMPTY {
+                continue;
+            }
+            for &kd in &[P, N, B, R, Q] {
+                if kd == P && (rank_of(x) == 0 || rank_of(x) == 7) {
+                    continue;
+                }
+                let mut p = base;
+                p.b[x] = mk(own, kd);
+                emit_if_valid(&p, f);
+            }
+        }
+    }
+}
